@@ -27,8 +27,8 @@ type Engine struct {
 	cs       *ContractSet
 	// globals that are never stored to outside package init, with their constant initialiser (if simple)
 	constGlobal map[*ssa.Global]*ssa.Const
-	errGlobal   map[*ssa.Global]bool // initialised once with errors.New / fmt.Errorf: distinct non-nil
-	zeroGlobal  map[*ssa.Global]bool // never stored, zero value (any type)
+	errGlobal   map[*ssa.Global]bool   // initialised once with errors.New / fmt.Errorf: distinct non-nil
+	zeroGlobal  map[*ssa.Global]bool   // never stored, zero value (any type)
 	bytesGlobal map[*ssa.Global]string // never-reassigned []byte global initialised from a constant string
 	storedGlob  map[*ssa.Global]int
 	loadErrs    []string
@@ -284,6 +284,17 @@ func (e *Engine) loadContracts(trustedDir string) error {
 		for _, f := range fs {
 			if err := e.cs.ParseFile(f, path); err != nil {
 				return err
+			}
+		}
+	}
+	// diagnostic only (never used by a registered check): extra contract files, "file=pkgpath,file=pkgpath"
+	if extra := os.Getenv("VERIF_EXTRA_SPEC"); extra != "" {
+		for _, fp := range strings.Split(extra, ",") {
+			kv := strings.SplitN(fp, "=", 2)
+			if len(kv) == 2 {
+				if err := e.cs.ParseFile(kv[0], kv[1]); err != nil {
+					return err
+				}
 			}
 		}
 	}
